@@ -43,8 +43,8 @@ fn do_input_one_var<S: InterpreterTrait>(
     index: usize,
     file_handle: FileHandle,
 ) -> Result<(), RuntimeError> {
-    let raw_input: String = raw_input(interpreter, file_handle)?;
     let q: TypeQualifier = qualifier(interpreter, index)?;
+    let raw_input: String = raw_input(interpreter, file_handle, q)?;
     let new_value: Variant = match q {
         TypeQualifier::DollarString => Variant::from(raw_input),
         _ => parse_number_input(raw_input, q)?,
@@ -56,14 +56,25 @@ fn do_input_one_var<S: InterpreterTrait>(
 fn raw_input<S: InterpreterTrait>(
     interpreter: &mut S,
     file_handle: FileHandle,
+    q: TypeQualifier,
 ) -> Result<String, RuntimeError> {
+    let is_string = q == TypeQualifier::DollarString;
     if file_handle.is_valid() {
         let file_input = interpreter
             .file_manager()
             .try_get_file_info_input(&file_handle)?;
-        file_input.input().map_err(RuntimeError::from)
-    } else {
+        if is_string {
+            file_input.input().map_err(RuntimeError::from)
+        } else {
+            file_input.input_number().map_err(RuntimeError::from)
+        }
+    } else if is_string {
         interpreter.stdin().input().map_err(RuntimeError::from)
+    } else {
+        interpreter
+            .stdin()
+            .input_number()
+            .map_err(RuntimeError::from)
     }
 }
 
